@@ -203,16 +203,39 @@ func Declarations(l *Log, nilIntPtr **int, nilMap *map[string]int, ints *[]int) 
 				f()
 			}
 		},
-		"Stop":      func(env native.Env, i int) { stopWith(l, env, i) },
-		"Fatal":     func(env native.Env, i int) { fatalWith(l, env, i) },
-		"StopVar":   func(env native.Env, i int, xs ...any) { stopWith(l, env, i) },
-		"FatalVar":  func(env native.Env, i int, xs ...any) { fatalWith(l, env, i) },
-		"EV":        func(kind, action string, idx int) any { return EnvValue(l, kind, action, idx) },
-		"PanicStr":  func() { panic("native boom") },
-		"PanicErr":  func() { panic(errors.New("native error")) },
-		"PanicEnv":  func(env native.Env, n int) { panic("native env " + strconv.Itoa(n)) },
-		"PanicVar":  func(xs ...int) { panic("native variadic " + strconv.Itoa(len(xs))) },
-		"NilFunc":   func() func() { return nil },
+		"Stop":     func(env native.Env, i int) { stopWith(l, env, i) },
+		"Fatal":    func(env native.Env, i int) { fatalWith(l, env, i) },
+		"StopVar":  func(env native.Env, i int, xs ...any) { stopWith(l, env, i) },
+		"FatalVar": func(env native.Env, i int, xs ...any) { fatalWith(l, env, i) },
+		"EV":       func(kind, action string, idx int) any { return EnvValue(l, kind, action, idx) },
+		"PanicStr": func() { panic("native boom") },
+		"PanicErr": func() { panic(errors.New("native error")) },
+		"PanicEnv": func(env native.Env, n int) { panic("native env " + strconv.Itoa(n)) },
+		"PanicVar": func(xs ...int) { panic("native variadic " + strconv.Itoa(len(xs))) },
+		"NilFunc":  func() func() { return nil },
+		"NilT":     func() *T { return nil },
+		"PanicDef": func(n int) { panic("deferred native " + strconv.Itoa(n)) },
+		// CallRec calls f and returns the value of the panic it recovered (nil if f
+		// did not panic). The panic of an interpreted function reaches native code as
+		// a value with a Message method that returns the value passed to panic.
+		"CallRec": func(f func()) (v any) {
+			defer func() {
+				v = recover()
+				if m, ok := v.(interface{ Message() any }); ok {
+					v = m.Message()
+				}
+				l.Add("CRr")
+			}()
+			l.Add("CR<")
+			f()
+			return nil
+		},
+		// CallRecRaw is CallRec without unwrapping.
+		"CallRecRaw": func(f func()) (v any) {
+			defer func() { v = recover() }()
+			f()
+			return nil
+		},
 		"NewT":      func() *T { return &T{N: 1, l: l} },
 		"T":         reflect.TypeFor[T](),
 		"Str":       reflect.TypeFor[Str](),
@@ -298,5 +321,21 @@ func PanicErr()   { panic(errors.New("native error")) }
 func PanicEnv(n int)      { panic("native env " + strconv.Itoa(n)) }
 func PanicVar(xs ...int)  { panic("native variadic " + strconv.Itoa(len(xs))) }
 func NilFunc() func()     { return nil }
+func NilT() *T            { return nil }
+func PanicDef(n int)      { panic("deferred native " + strconv.Itoa(n)) }
+func CallRec(f func()) (v any) {
+	defer func() {
+		v = recover()
+		add("CRr")
+	}()
+	add("CR<")
+	f()
+	return nil
+}
+func CallRecRaw(f func()) (v any) {
+	defer func() { v = recover() }()
+	f()
+	return nil
+}
 func NewT() *T            { return &T{N: 1} }
 `
